@@ -3,6 +3,7 @@ import Kdf.Model.Err
 ```
 init <bufsz>
 add <hex message> <allocOk 0|1>
+addbad <allocOk 0|1>          the format string is invalid
 clear
 ```
 Output after each: `> <hex of the error string> <null|buf:<off>|dyn:<off>> dyn=<0|1>[ OOB]`
@@ -32,6 +33,9 @@ partial def loop (h : IO.FS.Stream) (e : ErrBuf) : IO Unit := do
   | ["init", n] => let e' := init n.toNat!; IO.println (showSt e'); loop h e'
   | ["add", hex, ok] =>
     let e' := vadd e (unhex hex.toList) (ok == "1"); IO.println (showSt e'); loop h e'
+  | ["addbad", ok] =>
+    -- err_vadd substitutes the text "(bad format string)" when vsnprintf rejects the format
+    let e' := vadd e ("(bad format string)".toList.map Char.toNat) (ok == "1"); IO.println (showSt e'); loop h e'
   | ["add", ok] =>
     let e' := vadd e [] (ok == "1"); IO.println (showSt e'); loop h e'
   | ["clear"] => let e' := clear e; IO.println (showSt e'); loop h e'
